@@ -12,7 +12,7 @@ NOTE = ("trusted base: CPython's ast module and the analyser in /verif/sa; the c
 
 CLAIMS = {
     "C01": dict(
-        category="proof", design="DESIGN.md 4/C01",
+        category="other", design="DESIGN.md 4/C01",
         technique="constant folding of table literals + exact rooted-tree order conditions, B/C/D simplifying assumptions, "
                   "free-algebra (BCH) words, abstract interpretation of the Neville tableau over error expansions",
         text="Decides the table clause of C01 exactly: every shipped table (32, read from the shipped lists) is folded from the "
@@ -20,9 +20,10 @@ CLAIMS = {
              "via B(19),C,D) are evaluated in exact dyadic arithmetic with a 1e-10 residual bound; estimator weights (read from "
              "get_error_estimate) must be consistent; splitting schemes are checked word by word against exp(h(A+B)); the "
              "Richardson tableau code is interpreted over symbolic error expansions for every shipped base order and 2..5 levels. "
-             "This is a proof of the algebraic conditions that are necessary and sufficient for the declared local order of the map "
-             "the tables define; that step() evaluates that map is C02's clause; nothing is integrated. When a known finding is "
-             "open the evidence level drops to 'other' (an undischarged obligation is not a proof)."),
+             "For the 30 tables without an open finding this is a proof of the algebraic conditions that are necessary and sufficient for "
+             "the declared local order of the map the tables define (that step() evaluates that map is C02's clause; nothing is integrated). "
+             "The level is 'other', not 'proof', because two obligations are undischarged known findings (the declared orders of the two "
+             "high-order splitting schemes), so the property as a whole is not proved."),
     "C10": dict(
         category="proof", design="DESIGN.md 4/C10",
         technique="constant folding + exact symplecticity matrix / symmetry / palindrome identities; AST shape of the drift-kick update",
